@@ -87,8 +87,52 @@ fn with_xml(file: &[u8], xml: &[u8]) -> Option<Vec<u8>> {
     Some(repage(&l))
 }
 
+/// prototype-shape mutations: the children of a <prototype> removed (empty prototype with a record
+/// count > 0), all records turned into zero-width integers, or many constant records added
+fn mutate_prototype(rng: &mut Rng, xml: &str) -> Option<String> {
+    let starts: Vec<usize> = xml.match_indices("<prototype").map(|m| m.0).collect();
+    if starts.is_empty() {
+        return None;
+    }
+    let s = *rng.pick(&starts);
+    let body = s + xml[s..].find('>')? + 1;
+    let e = body + xml[body..].find("</prototype>")?;
+    let inner = &xml[body..e];
+    let new_inner = match rng.below(4) {
+        0 => String::from("\n"),
+        1 => " ".repeat(inner.len()), // same length: offsets stay valid
+        2 => {
+            // every record a constant integer
+            let mut out = String::from("\n");
+            for l in inner.lines() {
+                if let (Some(a), Some(b)) = (l.find('<'), l.find(|c| c == ' ' || c == '>')) {
+                    if b > a + 1 && !l[a + 1..].starts_with('/') {
+                        let name = &l[a + 1..b];
+                        out.push_str(&format!("<{name} type=\"Integer\" minimum=\"5\" maximum=\"5\">5</{name}>\n"));
+                    }
+                }
+            }
+            out
+        }
+        _ => {
+            // keep the records, add many constant ones
+            let mut out = inner.to_string();
+            for k in 0..(20 + rng.below(200)) {
+                out.push_str(&format!("<zz{k} type=\"Integer\" minimum=\"9\" maximum=\"9\">9</zz{k}>\n"));
+            }
+            out
+        }
+    };
+    Some(format!("{}{}{}", &xml[..body], new_inner, &xml[e..]))
+}
+
 fn mutate_xml(rng: &mut Rng, xml: &str) -> String {
     let b = xml.as_bytes();
+    if rng.chance(1, 10) {
+        if let Some(x) = mutate_prototype(rng, xml) {
+            return x;
+        }
+    }
     match rng.below(9) {
         0 | 1 | 2 => {
             // replace the value of a random attribute or element text that looks numeric
